@@ -75,6 +75,9 @@ class Engine:
         self.notes = {}
         self.doms = {}
         self.decided = {}
+        self.e3_samples = []   # (smt2 text, verdict) of sampled final queries, re-decided by other solvers (guard E3)
+        self.e3_every = 37
+        self.e3_max = 6
 
     # ---- solver helpers
     def _check(self, *assump):
@@ -238,7 +241,16 @@ class Engine:
             return None
         self.stats.assert_queries += 1
         q = z3.Or(zs) if len(zs) > 1 else zs[0]
-        if self._check(q):
+        sat = self._check(q)
+        if len(self.e3_samples) < self.e3_max and self.stats.assert_queries % self.e3_every == 1:
+            try:
+                s2 = z3.Solver()
+                s2.add(self.solver.assertions())
+                s2.add(q)
+                self.e3_samples.append((s2.to_smt2(), "sat" if sat else "unsat"))
+            except z3.Z3Exception:
+                pass
+        if sat:
             return self.solver.model()
         return None
 
